@@ -258,6 +258,31 @@ def run(ctx) -> None:
                "replaced by the launch environment's A although the environment defines its own A (own variables must win)"
                % short(ctxarg, 60), construct="expand_vars(%s, %s)" % (short(subj, 40), short(ctxarg, 50)))
 
+    # the self-reference step of DEFAULTS (PATH: /x:$PATH) goes through the reference grammar: inside a loop over names, every item
+    # store ENV[<loop variable>] = v has v = a launch value of that name or an expand_vars(..) call (whose context is judged above).
+    # A textual replace of '$NAME' also rewrites the prefix of '$NAME_EXTRA' and the escaped '$$NAME' (seed C17-13).
+    for lp in source.walk_own(ewn, include_nested=False):
+        if not (isinstance(lp, ast.For) and isinstance(lp.target, ast.Name)):
+            continue
+        k = lp.target.id
+        for st in ast.walk(lp):
+            if not isinstance(st, (ast.Assign, ast.AugAssign)):
+                continue
+            tg = st.targets if isinstance(st, ast.Assign) else [st.target]
+            if not any(isinstance(t, ast.Subscript) and isinstance(t.value, ast.Name) and t.value.id == ENV
+                       and isinstance(t.slice, ast.Name) and t.slice.id == k for t in tg):
+                continue
+            v = match.resolve_local(ewn, st.value)
+            launch = isinstance(v, ast.Subscript) and isinstance(v.slice, ast.Name) and v.slice.id == k and not isinstance(st, ast.AugAssign)
+            grammar = isinstance(v, ast.Call) and (last_attr(v) == "expand_vars" or call_name(v) == "expand_vars") and not isinstance(st, ast.AugAssign)
+            ok = launch or grammar
+            ctx.ob("C17.R5-expansion-context", st, ok,
+                   "%s[%s] is set to %s" % (ENV, k, "the launch value of the same name" if launch else "an expand_vars result") if ok else
+                   "%s[%s] is rewritten by %s instead of the reference grammar (expand_vars): a textual replacement of '$%s' also rewrites the "
+                   "prefix of a longer name ('$%s_EXTRA') and an escaped '$$%s', so the value contains launch text where the environment "
+                   "referenced another (own or undefined) variable" % (ENV, k, short(v, 80), "NAME", "NAME", "NAME"),
+                   construct="%s[%s] = launch value | expand_vars(..)" % (ENV, k))
+
     # the context of the own-variable expansion is the WHOLE layered environment: no definition that reaches the call is a filtered
     # copy of the environment (a variable that was blanked on purpose must still shadow the launch variable of the same name)
     cfg5 = CFG(ewn)
